@@ -133,6 +133,23 @@ def step (d : DS) (line : String) : DS × String :=
     let kv := kvOf rest
     let pos := posOf rest
     let arg (i : Nat) : Nat := ((pos[i]?).bind String.toNat?).getD 0
+    -- injected write error (fault=1): the first storage write of the op fails; ops that would fail before writing answer normally
+    if getKV kv "fault" == "1" then
+      match op with
+      | "dotx" =>
+        let (_, r) := doTx d.env d.s (ledgerH d) (arg 0)
+        (d, if r == .ok then "fault" else r.toString)
+      | "play" =>
+        let (_, r) := play d.env d.s (ledgerH d) (d.env.block (arg 0))
+        (d, if r == .ok then "fault" else "fail:" ++ r.toString)
+      | "walk" => (d, "fault")
+      | "confirm" =>
+        let b := d.env.block (arg 0)
+        let txs := b.txs.map (fun t => (t, (d.env.tx t).coinbase))
+        let (_, st) := XV.Ledger.confirm d.l b.id (b.pre.getD 0) txs
+        (d, if st == .fail then "fail" else "fault")
+      | _ => (d, "bad-op")
+    else
     match op with
     | "reset" =>
       let alloc := (splitList (getKV kv "alloc")).filterMap String.toNat?
